@@ -71,6 +71,8 @@ type Params struct {
 	PreMature      []PreMat   `json:"pre_mature,omitempty"` // pending unstake maturities carried over by a state dump
 	// governance proposals carried over by a state dump (see genesis_proposals.go); only C14 draws them
 	PreProposals []PreProposal `json:"pre_proposals,omitempty"`
+	// validator-reward state carried over by a state dump (see prerewards.go); nil = empty; only C13 draws it
+	PreRewards *PreRewards `json:"pre_rewards,omitempty"`
 }
 
 type PreMat struct {
@@ -307,15 +309,12 @@ func BuildGenesis(p Params) *Genesis {
 		delegOpt = network_delegation.Options{}
 	}
 	state := consensus.AppState{
-		Delegation: delegState,
-		Currencies: currencies,
-		Balances:   balances,
-		Staking:    staking,
-		Witness:    witness,
-		Rewards: rewards.RewardMasterState{
-			RewardState: rewards.NewRewardState(),
-			CumuState:   rewards.NewRewardCumuState(),
-		},
+		Delegation:    delegState,
+		Currencies:    currencies,
+		Balances:      balances,
+		Staking:       staking,
+		Witness:       witness,
+		Rewards:       rewardGenesisState(p.PreRewards, u),
 		Domains:       []consensus.DomainState{},
 		Fees:          []consensus.BalanceState{},
 		NetDelegators: netDeleg,
